@@ -690,6 +690,7 @@ class Interp(ModelMixin):
         if isinstance(spec, Raise):
             return [], [(('raise', spec.exc), st)]
         exits, escapes = [], []
+        entry_serial = st.serial
         st.frame.loops += 1
         depth = (len(st.frames), st.frame.loops)
         hidden = f'%it{st.frame.loops}'
@@ -745,6 +746,8 @@ class Interp(ModelMixin):
                                 escapes.append((ctl, s2))
                 if joiner is not None and len(nxt) > 1:
                     nxt = joiner(nxt)
+                if len(nxt) > 1:
+                    nxt = self.join_accum(nxt, entry_serial)
                 work = nxt
         for _, s in exits:
             s.frame.loops -= 0   # loop ids are never reused inside one frame activation
@@ -753,6 +756,10 @@ class Interp(ModelMixin):
         for _, s in escapes:
             s.frame.env.pop(hidden, None)
             self.loop_done(s, depth)
+        if joiner is not None and len(exits) > 1:
+            exits = joiner(exits)
+        if spec.exact is None and len(exits) > 1:
+            exits = self.join_accum(exits, entry_serial)
         for kind, s in exits:
             s.frame.env.pop(hidden, None)
             self.loop_done(s, depth)
@@ -761,6 +768,47 @@ class Interp(ModelMixin):
                 seen_e[k] = (kind, s)
         out_exits = list(seen_e.values())
         return out_exits, self.dedupe(escapes)
+
+    def join_accum(self, states, entry_serial):
+        """Join loop states that differ only in the contents of lists that existed before the loop and are filled
+        by it (``xs.append(...)``): the template sets are united (an over-approximation that keeps the number of
+        loop-head states linear instead of a powerset of template subsets)."""
+        groups = {}
+        out = []
+        for tagk, s in states:
+            accs = [sym for sym, e in s.heap.items() if isinstance(e, ListE) and e.kind == 'accum' and sym <= entry_serial]
+            if not accs:
+                out.append((tagk, s))
+                continue
+            k = (tagk, s.key(accum_before=entry_serial))
+            if k not in groups:
+                groups[k] = (tagk, s)
+                out.append((tagk, s))
+                continue
+            base = groups[k][1]
+            for sym in accs:
+                a, b = base.heap.get(sym), s.heap.get(sym)
+                if not isinstance(a, ListE) or not isinstance(b, ListE):
+                    continue
+                items = list(a.items)
+                owned = list(a.owned) if len(a.owned) == len(a.items) else [()] * len(a.items)
+                have = {repr(self._coarse(x, base)) for x in items}
+                for t in b.items:
+                    if repr(self._coarse(t, s)) not in have:
+                        t2 = self.import_value(t, s, base, entry_serial)
+                        items.append(t2)
+                        owned.append(self.reachable(t2, base, entry_serial))
+                        have.add(repr(self._coarse(t2, base)))
+                base.heap[sym] = replace(a, items=tuple(items), owned=tuple(owned), lo=min(a.lo, b.lo),
+                                         hi=None if (a.hi is None or b.hi is None) else max(a.hi, b.hi),
+                                         distinct=a.distinct and b.distinct)
+        return out
+
+    def _coarse(self, x, st):
+        k = self._vk(x, st)
+        if isinstance(k, tuple) and k and k[0] == 'elem':
+            return k[:3] + k[4:]
+        return k
 
     def gc(self, st: State):
         """Drop heap entries that the program can no longer reach."""
